@@ -366,7 +366,7 @@ def netspec(draw, prof):
         if is_ps:
             nd["ps"] = True
             nd["servers"] = draw(st.sampled_from([{"kind": "inf"}, {"kind": "int", "c": 1}, {"kind": "int", "c": 2}, {"kind": "int", "c": 3}]))
-            nd["ps_threshold"] = draw(st.integers(1, 3))
+            nd["ps_threshold"] = draw(st.sampled_from([1, 2, 3, 1, 2, 3, 1.5, 2.5]))     # rate min(1, R/k): R need not be an integer
         else:
             nd["servers"] = servers(draw, prof, [prof.node_kinds[i]] if prof.node_kinds else server_kinds)
             twin = [x for x in nodes if x["servers"]["kind"] in ("schedule", "slotted") and not x.get("ps")]
